@@ -104,6 +104,7 @@ type varsCase struct {
 	Loop     *vLoop              `json:"loop,omitempty"`   // kind loop
 	Chain    *vChain             `json:"chain,omitempty"`  // kind envchain
 	EnvPipe  *vEnvPipe           `json:"envpipe,omitempty"` // kind envpipe (harness/varsenv.go)
+	FsHist   *vFsHist            `json:"fshist,omitempty"`  // kind fshist (harness/varsenv.go)
 }
 
 // vChain: `env:` entries given by `sh:` that read other env entries (global and task level) and
@@ -501,6 +502,9 @@ func evalVarsAll(d varsCase) (lines []varsLine) {
 	}
 	if d.Kind == "envchain" && d.Chain != nil {
 		return evalVarsChain(d)
+	}
+	if d.Kind == "fshist" && d.FsHist != nil {
+		return evalFsHist(*d.FsHist)
 	}
 	if d.Kind == "envpipe" && d.EnvPipe != nil {
 		cl, il := evalEnvPipe(*d.EnvPipe)
@@ -1267,6 +1271,17 @@ func runVars(c *Ctx) {
 		ep := c.genEnvPipe()
 		c.Hit(fmt.Sprintf("envpipe:prec=%v", ep.Prec))
 		emitAll(varsCase{Kind: "envpipe", EnvPipe: &ep, Dotenvs: map[string][][2]string{}})
+	}
+	// C11, the file system: commands rewrite files that later `sh:` variables read (same stream switch as the env-reading one)
+	if os.Getenv("VERIF_VARS_ENVDEP") != "0" {
+		fh := vFsHist{Files: [][3]string{{"", "f0.txt", "old"}, {"", "g.txt", "ig"}},
+			Tasks: []vFsTask{{Reads: "f0.txt", Writes: [][2]string{{"f0.txt", "new"}}}, {Reads: "f0.txt"}}, Seq: []int{0, 1}}
+		emitAll(varsCase{Kind: "fshist", FsHist: &fh, Dotenvs: map[string][][2]string{}})
+		for i := 0; i < c.Pick(120, 1200); i++ {
+			fh := c.genFsHist()
+			c.Hit("stream:fshist")
+			emitAll(varsCase{Kind: "fshist", FsHist: &fh, Dotenvs: map[string][][2]string{}})
+		}
 	}
 	nl := c.Pick(40, 400)
 	for i := 0; i < nl; i++ {
